@@ -212,15 +212,29 @@ func casesFromRun(w *wl.Workload, out *runOut, r *vlib.RNG, res *vlib.Result, ma
 		cut := cd.synced + r.Intn(cd.size-cd.synced+1)
 		near := false
 		lo, hi := cd.synced/vstor.JournalBlock, cd.size/vstor.JournalBlock
+		forceNone := false
 		if hi > lo && r.Chance(4, 5) {
 			b := (lo + 1 + r.Intn(hi-lo)) * vstor.JournalBlock
-			c := b - 8 + r.Intn(17)
+			var c int
+			switch r.Pick(3, 3, 2) {
+			case 0: // inside the 7-byte header that starts the block (of a continuation chunk more often than not)
+				c, forceNone = b+1+r.Intn(6), true
+			case 1:
+				c = b - 8 + r.Intn(17)
+			default: // that header whole, the payload behind it cut
+				c = b + 9 + r.Intn(300)
+			}
 			if c >= cd.synced && c <= cd.size {
 				cut, near = c, true
+			} else {
+				forceNone = false
 			}
 		}
 		data := append([]byte(nil), full[:cut]...)
 		tailKind := r.Pick(5, 2, 2)
+		if forceNone {
+			tailKind = 0
+		}
 		switch tailKind {
 		case 1: // zeros up to the written length (vstor's cut+zeros)
 			data = append(data, make([]byte, cd.size-cut)...)
